@@ -498,6 +498,7 @@ func (l *lexer) primary() Expr {
 // Contract file structure
 
 type Clause struct {
+	Assumed bool // given to callers but not checked against the body (listed in the trusted base)
 	Label string
 	Modes []string // restrict to float modes ("fp","real"); empty = all
 	Src   string
@@ -563,6 +564,7 @@ type Contract struct {
 	Ensures  []*Clause
 	Modifies []string
 	ModAll   bool
+	Preserves []string // heap designators exempt from "modifies *"
 	Loops    map[int]*LoopSpec
 	AtCalls  []*AtCall
 	Asserts  []*AssertAt
@@ -774,11 +776,12 @@ func (cs *ContractSet) parseContractText(pkgPath, file string, lines []string, l
 					return err
 				}
 				cur.Requires = append(cur.Requires, c)
-			case "ensures":
+			case "ensures", "assume-ensures":
 				c, err := parseClause(rest, file, line)
 				if err != nil {
 					return err
 				}
+				c.Assumed = kw == "assume-ensures"
 				cur.Ensures = append(cur.Ensures, c)
 			case "modifies":
 				for _, m := range strings.Split(rest, ",") {
@@ -787,6 +790,12 @@ func (cs *ContractSet) parseContractText(pkgPath, file string, lines []string, l
 						cur.ModAll = true
 					} else if m != "" {
 						cur.Modifies = append(cur.Modifies, m)
+					}
+				}
+			case "preserves":
+				for _, m := range strings.Split(rest, ",") {
+					if m = strings.TrimSpace(m); m != "" {
+						cur.Preserves = append(cur.Preserves, m)
 					}
 				}
 			case "loop":
